@@ -172,6 +172,7 @@ type c19World struct {
 	macc    sdk.AccAddress
 	lockers bool
 	x       *c19X // external-programme fixtures (c19_ext_test.go), nil in the plain gauge worlds
+	sfSeen  map[uint64]bool
 }
 
 func c19Addr(i int) sdk.AccAddress {
@@ -233,7 +234,15 @@ func (w *c19World) setPrice(assetID uint64, twa uint64, active bool) {
 
 // c19NewWorld: one app, four priced assets, pool 1 (the master pool of the gauges) and pools 2, 3, 4 (child pools).
 func c19NewWorld(t *testing.T, tr *Trace, reserve int64, decimals int64, prices [4]uint64) *c19World {
-	w := &c19World{t: t, tr: tr, acctIx: map[string]int{}, denoms: []string{"urew", "urewb", "weth"}}
+	return c19NewWorldOpt(t, tr, reserve, decimals, prices, "")
+}
+
+// swapDenom != "": the denomination swap fees are distributed in (default ucmdx, which no pool of these worlds trades)
+func c19NewWorldOpt(t *testing.T, tr *Trace, reserve int64, decimals int64, prices [4]uint64, swapDenom string) *c19World {
+	w := &c19World{t: t, tr: tr, acctIx: map[string]int{}, denoms: []string{"urew", "urewb", "weth"}, sfSeen: map[uint64]bool{}}
+	if swapDenom != "" {
+		w.denoms = append(w.denoms, swapDenom)
+	}
 	w.app = chain.Setup(t, false)
 	t0 := time.Date(2024, 1, 1, 0, 0, 0, 0, time.UTC)
 	w.ctx = w.app.BaseApp.NewContext(false, tmproto.Header{Height: 1, Time: t0})
@@ -243,6 +252,9 @@ func c19NewWorld(t *testing.T, tr *Trace, reserve int64, decimals int64, prices 
 	for i, d := range []string{"uasset1", "uasset2", "uasset3", "uasset4"} {
 		w.must(w.app.AssetKeeper.AddAssetRecords(w.ctx, assettypes.Asset{Name: alphaName(i), Denom: d, Decimals: sdk.NewInt(decimals), IsOnChain: true, IsOraclePriceRequired: true}))
 		w.setPrice(uint64(i+1), prices[i], true)
+	}
+	if swapDenom != "" {
+		w.must(w.app.LiquidityKeeper.UpdateGenericParams(w.ctx, w.appID, []string{"SwapFeeDistrDenom"}, []string{swapDenom}))
 	}
 	params, err := w.app.LiquidityKeeper.GetGenericParams(w.ctx, w.appID)
 	w.must(err)
@@ -260,10 +272,18 @@ func c19NewWorld(t *testing.T, tr *Trace, reserve int64, decimals int64, prices 
 		w.pools = append(w.pools, pool)
 	}
 	tr.Line("gauge.begin", i64(int64(rewardstypes.MinimumEpochDuration)))
-	for _, g := range w.app.Rewardskeeper.GetAllGauges(w.ctx) {
-		tr.Line("gauge.sfgauge", u(g.Id), g.DepositAmount.Denom, i64(int64(g.TriggerDuration)), i64(w.ctx.BlockTime().UnixNano()))
-	}
+	w.noteSfGauges()
 	return w
+}
+
+// announce swap-fee gauges created since the last call (pool creation creates one, with its epoch record)
+func (w *c19World) noteSfGauges() {
+	for _, g := range w.app.Rewardskeeper.GetAllGauges(w.ctx) {
+		if g.ForSwapFee && !w.sfSeen[g.Id] {
+			w.sfSeen[g.Id] = true
+			w.tr.Line("gauge.sfgauge", u(g.Id), g.DepositAmount.Denom, i64(int64(g.TriggerDuration)), i64(w.ctx.BlockTime().UnixNano()))
+		}
+	}
 }
 
 // deposit real coins into a pool (executed by the liquidity EndBlocker) and return the pool coins received
@@ -578,6 +598,7 @@ func (w *c19World) block(gap time.Duration) {
 	w.ctx = w.ctx.WithBlockHeight(w.ctx.BlockHeight() + 1).WithBlockTime(w.ctx.BlockTime().Add(gap))
 	now := w.ctx.BlockTime()
 	tr.Line("gauge.block", i64(now.UnixNano()))
+	w.sfInputs()
 	for _, g := range w.app.Rewardskeeper.GetAllGauges(w.ctx) {
 		if g.ForSwapFee || !g.IsActive || now.Before(g.StartTime) || g.TriggeredCount == g.TotalTriggers || !g.DepositAmount.Amount.IsUint64() {
 			continue
@@ -609,6 +630,7 @@ func (w *c19World) block(gap time.Duration) {
 	rewards.BeginBlocker(w.ctx, abci.RequestBeginBlock{}, w.app.Rewardskeeper)
 
 	balAfter := w.balSnap()
+	liquidity.BeginBlocker(w.ctx, w.app.LiquidityKeeper, w.app.AssetKeeper) // every 150 blocks: accumulated swap fees → SwapFeeDistrDenom
 	tr.Line("gauge.run", "ok")
 
 	var es []string
@@ -621,6 +643,17 @@ func (w *c19World) block(gap time.Duration) {
 	for _, g := range w.app.Rewardskeeper.GetAllGauges(w.ctx) {
 		gs = append(gs, strings.Join([]string{u(g.Id), g.DepositAmount.Denom, g.DepositAmount.Amount.String(), g.DistributedAmount.Amount.String(),
 			u(g.TriggeredCount), u(g.TotalTriggers), strconv.FormatBool(g.IsActive), strconv.FormatBool(g.ForSwapFee), i64(int64(g.TriggerDuration)), i64(g.StartTime.UnixNano())}, ":"))
+		if g.ForSwapFee {
+			if g.DepositAmount.IsPositive() {
+				tr.Count("sfgauge:holds-coins")
+			}
+			if g.TriggeredCount > gaugesBefore[g.Id] {
+				tr.Count("sfgauge:triggered")
+			}
+			if g.DistributedAmount.IsPositive() {
+				tr.Count("sfgauge:has-distributed")
+			}
+		}
 		if !g.ForSwapFee {
 			switch {
 			case g.TriggeredCount > gaugesBefore[g.Id]:
@@ -1117,6 +1150,7 @@ func TestC19(t *testing.T) {
 	c19WitnessLendValueAsAmount(t, tr)
 	c19WitnessLendTruncatedTotal(t, tr)
 	c19LendSameBlockCase(t, tr)
+	c19WitnessSfLeak(t, tr)
 	c19GuardCase(t, tr)
 	c19MasterChildCase(t, tr)
 	c19Split(tr, rng)
@@ -1127,6 +1161,7 @@ func TestC19(t *testing.T) {
 		c19Lifecycle(t, tr, rng, s)
 	}
 	c19XWorlds(t, tr, rng)
+	c19SfWorlds(t, tr, rng)
 }
 
 // developer aid (not part of the check): only the external-programme corpus and worlds
@@ -1138,5 +1173,7 @@ func TestC19XOnly(t *testing.T) {
 	c19WitnessLendValueAsAmount(t, tr)
 	c19WitnessLendTruncatedTotal(t, tr)
 	c19LendSameBlockCase(t, tr)
+	c19WitnessSfLeak(t, tr)
 	c19XWorlds(t, tr, rng)
+	c19SfWorlds(t, tr, rng)
 }
